@@ -35,7 +35,7 @@ CLAIMED = {
    "Seeded exploration in virtual time (engine N): real serve_with_incoming_shutdown with 0..3 connections and 1..6 unary/streaming/bidi calls with virtual latencies; the signal is placed at a drawn virtual instant or right after the k-th handler entry; one more connection is offered strictly after the signal; oracle: every call whose handler was entered completes at its caller with the true outcome (C02 oracle), the late connection is never served, the serve future resolves only after every accepted connection's server end was dropped (ordered by a global event sequence) and does resolve once they have. Also drawn: accept errors from the listener, shutdown by the end of the incoming stream, Server::timeout (150 ms, above every handler latency) and max_connection_age (20/60 ms) — none may weaken the drain.",
    "Accepted = handler entered. Closure of connections after the last in-flight call is a probe, not judged."),
  "C14": ("N", "DESIGN.md §7 C14, §3.3",
-   "Complete enumeration of all 726 fault scripts of length <= 5 over {connect fails, connect succeeds, established connection dropped} x {lazy, eager}, then seeded random scripts up to length 14 (engine N): real Channel (Buffer worker, Reconnect, hyper/h2 client) and Server; a call (sometimes two back-to-back) at every quiescent point; oracle = two-state reference automaton matching per-call outcome and connector invocation count one-to-one (connector failure => UNAVAILABLE to the triggering call only, eager initial failure reported immediately, success without rebuilding once reachable). 12 io::ErrorKinds and connect_timeout drawn. Relaxed configuration: the connection dies at a drawn byte offset during a call — EOF, reset, or a silent partition (blackhole) with HTTP/2 keep-alive configured — => definite result within the keep-alive bound, no hang/panic, recovery at the next quiescent calls. Graceful configuration: the server retires connections by GOAWAY (max_connection_age) while the channel is idle; every later round of calls succeeds on a fresh connection. Balanced configuration (hook H4): tower p2c Balance over one lazily connected endpoint under failing/succeeding attempts and killed connections — no hang, failures UNAVAILABLE, at most one attempt per call, recovery. TLS part (run by the same command from the tsim-tls package, evidence merged under coverage.tls_part): a TLS channel whose connections die 1..3 times reconnects through the TLS connector every time. Connect-timeout configuration: attempts that never complete or complete too late are given up after Endpoint::connect_timeout, eager and lazy.",
+   "Complete enumeration of all 726 fault scripts of length <= 5 over {connect fails, connect succeeds, established connection dropped} x {lazy, eager}, then seeded random scripts up to length 14 (engine N): real Channel (Buffer worker, Reconnect, hyper/h2 client) and Server; a call (sometimes two back-to-back) at every quiescent point; oracle = two-state reference automaton matching per-call outcome and connector invocation count one-to-one (connector failure => UNAVAILABLE to the triggering call only, eager initial failure reported immediately, success without rebuilding once reachable). 12 io::ErrorKinds and connect_timeout drawn. Relaxed configuration: the connection dies at a drawn byte offset during a call — EOF, reset, or a silent partition (blackhole) with HTTP/2 keep-alive configured — => definite result within the keep-alive bound, no hang/panic, recovery at the next quiescent calls. Graceful configuration: the server retires connections by GOAWAY (max_connection_age) while the channel is idle; every later round of calls succeeds on a fresh connection. URI-without-scheme configuration: every call gets the same definite error, no panic in the background task. Balanced configuration (hook H4): tower p2c Balance over one lazily connected endpoint under failing/succeeding attempts and killed connections — no hang, failures UNAVAILABLE, at most one attempt per call, recovery. TLS part (run by the same command from the tsim-tls package, evidence merged under coverage.tls_part): a TLS channel whose connections die 1..3 times reconnects through the TLS connector every time. Connect-timeout configuration: attempts that never complete or complete too late are given up after Endpoint::connect_timeout, eager and lazy.",
    "Calls are issued at quiescent points, as the property states."),
  "C15": ("N", "DESIGN.md §7 C15, §3.3",
    "Complete enumeration of the 486-cell matrix (client roots x domain x server ALPN x assume_http2 x server client-auth x client identity), each cell again under further seeded network schedules (engine N, real rustls on both ends of the simulated pipe): tonic ClientTlsConfig against tonic ServerTlsConfig, or against the harness's own rustls acceptor + raw h2 server for ALPN absent/http/1.1; oracle = verdict table (success iff chain valid, name matches, h2 negotiated or opted out, client-auth satisfied); in every failing cell the call does not succeed and no request reaches a handler; the captured client bytes always start with a TLS handshake record and never show the HTTP/2 preface or the request canary in clear; handlers see the verified client certificate (DER-equal); https without TLS config fails with zero bytes written; a server whose client-CA material holds no usable certificate (30 cells: empty / not PEM / a key / garbage DER / whitespace x required/optional x client identity) is refused at configuration or serves nobody when authentication is required. Trust roots are supplied through the different builder methods (ca_certificate / ca_certificates, drawn).",
